@@ -932,11 +932,13 @@ class C22(Check):
             argv = ["@in.rsp"]
         return argv, labels, text != seed, True
 
-    def judge(self, res, hang, what, detail, d=None, argv=None):
+    def judge(self, res, hang, what, detail, d=None, argv=None, hang_hint=None):
         """Raises Violation for a crash/hang; returns the outcome class otherwise."""
         if hang == "deadlock":
             raise Violation("hang:deadlock", f"wild did not terminate within {self.case_timeout}s and its process group is idle "
                             f"(no CPU progress, all threads sleeping) on {what}", detail)
+        if hang == "cpu-bound" and hang_hint:
+            hang = hang_hint[len("hang:"):]      # gdb could not attribute the loop; the input lies in a known hang's domain
         if hang and hang.startswith("cpu-bound"):
             raise Violation("hang:" + hang, f"wild burnt more than {CPU_HANG_SECONDS}s of user CPU without terminating on {what} "
                             f"(a link of these inputs normally takes well under a second)", detail)
@@ -1145,7 +1147,7 @@ class C22(Check):
             out = {"name": name, "execs": 0, "cov": 0, "known": {}, "violation": None, "inconclusive": None,
                    "not_reproduced": 0, "restarts": 0}
             remaining, attempt = runs, 0
-            while remaining > 0 and attempt < 8:
+            while remaining > 0 and attempt < 12:
                 for f in os.listdir(adir):
                     os.unlink(os.path.join(adir, f))
                 cmd = [os.path.join(bindir, target), f"-runs={remaining}", f"-seed={seed + attempt}", "-len_control=0",
@@ -1217,8 +1219,14 @@ class C22(Check):
                 detail = {"campaign": name, "artifact_len": len(data), "artifact_sha1": hashlib.sha1(data).hexdigest(),
                           "argv": argv, "in_process": where.group(1)[:200] if where else p.stderr.strip()[-200:],
                           "artifact_hex_head": data[:64].hex()}
+                hint = None
+                if target == "fuzz_input" and len(data) > 1:
+                    body = data[1:]
+                    parts = [body] if body[:4] == b"\x7fELF" else [body[o + 60:o + 60 + sz] for o, sz in ar_members(body)]
+                    if any(pt[:4] == b"\x7fELF" and merge_string_far_offset(pt) for pt in parts):
+                        hint = SIG_HANG_MERGE
                 try:
-                    self.judge(res, hang, f"libFuzzer artifact of campaign {name}", detail, d, argv)
+                    self.judge(res, hang, f"libFuzzer artifact of campaign {name}", detail, d, argv, hang_hint=hint)
                     out["not_reproduced"] += 1
                     out["restarts"] += 1
                 except Inconclusive as e:
